@@ -244,6 +244,44 @@ pub fn shaped<'a, T: Copy + 'a>(v: &'a [T], shape: u64) -> Box<dyn Iterator<Item
     }
 }
 
+/// A NON-FUSED source: yields `items[..cut]`, then `None` once, then `items[cut..]`, then `None`
+/// for ever.  `fold` (and therefore `sum`) must stop at the first `None` and must not touch the
+/// source again: the sum is that of the first part, and the element after the gap is still there.
+/// Returns (sum of the first run, what `next()` yields afterwards, sum of the rest).
+pub fn non_fused_sums<T: Copy>(items: &[T], cut: usize) -> (TwoFloat, Option<T>, TwoFloat)
+where
+    TwoFloat: std::iter::Sum<T>,
+{
+    let cut = cut.min(items.len());
+    let mut i = 0usize;
+    let mut gap_done = false;
+    let mut it = std::iter::from_fn(|| {
+        if i == cut && !gap_done {
+            gap_done = true;
+            return None;
+        }
+        let r = items.get(i).copied();
+        i += 1;
+        r
+    });
+    let first: TwoFloat = (&mut it).sum();
+    let after = it.next();
+    let rest: TwoFloat = (&mut it).sum();
+    (first, after, rest)
+}
+
+/// calls written the way users write them: `x.method(..)` with only `num_traits::Float` in scope
+mod method_syntax {
+    use num_traits::Float;
+    use twofloat::TwoFloat;
+    pub fn mul_add(x: TwoFloat, a: TwoFloat, b: TwoFloat) -> TwoFloat {
+        x.mul_add(a, b)
+    }
+    pub fn abs_sub(x: TwoFloat, b: TwoFloat) -> TwoFloat {
+        x.abs_sub(b)
+    }
+}
+
 fn c10_sum(ctx: &mut Ctx) {
     let kind = ctx.below(4);
     // the shape of the iterator is an input too: exact-size slices, and adaptors whose
@@ -281,6 +319,50 @@ fn c10_sum(ctx: &mut Ctx) {
         acc
     });
     check!(ctx, same_r(&got, &fold), "Iterator::sum = {} differs from the left fold with + from zero = {}", show_r(&got), show_r(&fold));
+    // a source that is not fused: the fold ends at the first None and leaves the rest alone
+    if !tfs.is_empty() {
+        // the position of the gap is derived from the operands themselves (the choice words of
+        // this case may be used up by now, and an exhausted sequence would always yield 0)
+        let mix = dds.iter().fold(0x9E3779B97F4A7C15u64, |h, d| (h ^ d.hi.to_bits() ^ d.lo.to_bits().rotate_left(17)).wrapping_mul(0x100000001b3));
+        let cut = ((mix >> 20) % (tfs.len() as u64 + 1)) as usize;
+        let fold_range = |a: usize, b: usize| {
+            g(|| {
+                let mut acc = TwoFloat::from(0.0);
+                for i in a..b {
+                    acc = if kind < 2 { acc + tfs[i] } else { acc + fs[i] };
+                }
+                acc
+            })
+        };
+        let (want_first, want_rest) = (fold_range(0, cut), fold_range((cut + 1).min(tfs.len()), tfs.len()));
+        let r = guard(|| match kind {
+            0 => {
+                let (a, n, b) = non_fused_sums(&tfs, cut);
+                (a, n.map(|t| Dd::of(t)), b)
+            }
+            1 => {
+                let (a, n, b) = non_fused_sums(&tf_refs, cut);
+                (a, n.map(|t| Dd::of(*t)), b)
+            }
+            2 => {
+                let (a, n, b) = non_fused_sums(&fs, cut);
+                (a, n.map(|f| Dd::new(f, 0.0)), b)
+            }
+            _ => {
+                let (a, n, b) = non_fused_sums(&f_refs, cut);
+                (a, n.map(|f| Dd::new(*f, 0.0)), b)
+            }
+        });
+        match r {
+            Err(m) => ctx.fail(format!("Iterator::sum over a non-fused source panicked: {m}")),
+            Ok((first, after, rest)) => {
+                let want_after = if cut < tfs.len() { Some(if kind < 2 { dds[cut] } else { Dd::new(dds[cut].hi, 0.0) }) } else { None };
+                check!(ctx, same_r(&Ok(Dd::of(first)), &want_first), "Iterator::sum over a non-fused source (first None after {cut} of {} items) = {} but the fold of the items before the None is {}", tfs.len(), Dd::of(first).show(), show_r(&want_first));
+                check!(ctx, after.map(|d| (d.hi.to_bits(), d.lo.to_bits())) == want_after.map(|d| (d.hi.to_bits(), d.lo.to_bits())), "Iterator::sum consumed elements beyond the first None of a non-fused source: next() afterwards = {:?}, expected {:?}", after.map(|d| d.show()), want_after.map(|d| d.show()));
+                check!(ctx, same_r(&Ok(Dd::of(rest)), &want_rest), "a second Iterator::sum over the rest of a non-fused source = {} but the fold of the remaining items is {}", Dd::of(rest).show(), show_r(&want_rest));
+            }
+        }
+    }
     ctx.set_nontrivial(dds.len() >= 2);
 }
 
@@ -519,6 +601,10 @@ fn c10_binary(ctx: &mut Ctx) {
         }
         1 => {
             pairs.push(("Float::mul_add(a,b) vs self*a+b", g(|| F::mul_add(x, y, z)), g(|| x * y + z)));
+            // the METHOD-CALL spelling with the trait in scope: an inherent method of the same name
+            // would silently take precedence over the trait method
+            pairs.push(("x.mul_add(a, b) (method syntax, num_traits::Float in scope) vs self*a+b", g(|| method_syntax::mul_add(x, y, z)), g(|| x * y + z)));
+            pairs.push(("x.abs_sub(b) (method syntax) vs (a-b).abs()", g(|| method_syntax::abs_sub(x, y)), g(|| inh::abs(x - y))));
         }
         2 => {
             pairs.push(("Float::abs_sub vs (a-b).abs()", g(|| F::abs_sub(x, y)), g(|| inh::abs(x - y))));
